@@ -8,7 +8,8 @@ theorem covers_index (p : Plane) (hc : p.covers = true) (x y : Nat) (hx : x < p.
     p.index x y < p.data.size := by
   unfold Plane.covers at hc
   have hw : ¬ (p.cfg.width = 0 ∨ p.cfg.height = 0) := by omega
-  simp only [hw, if_false, decide_eq_true_eq] at hc
+  simp only [hw, if_false, Bool.and_eq_true, decide_eq_true_eq] at hc
+  replace hc := hc.2
   unfold Plane.index
   have h1 : (y + p.cfg.yorigin) * p.cfg.stride ≤ (p.cfg.yorigin + (p.cfg.height - 1)) * p.cfg.stride :=
     Nat.mul_le_mul_right _ (by omega)
@@ -119,12 +120,12 @@ theorem alignPow2_ge (x n : Nat) : x ≤ alignPow2 x n := by
   omega
 
 theorem planeNew_covers (w h xd yd xp yp tsz : Nat) (data : Array Nat) (hw : 0 < w) (hh : 0 < h)
-    (hs : data.size = (Plane.new w h xd yd xp yp tsz).data.size) :
+    (hs : data.size = (Plane.new w h xd yd xp yp tsz).data.size) (hfit : (Plane.new w h xd yd xp yp tsz).data.size ≤ USIZE_MAX) :
     ({ (Plane.new w h xd yd xp yp tsz) with data := data } : Plane).covers = true := by
   unfold Plane.covers
   simp only [hs]
-  unfold Plane.new PlaneCfg.new
-  simp only [Array.size_replicate, decide_eq_true_eq]
+  unfold Plane.new PlaneCfg.new at hfit ⊢
+  simp only [Array.size_replicate, Bool.and_eq_true, decide_eq_true_eq] at hfit ⊢
   have hst := alignPow2_ge (alignPow2 xp (6 + 1 - tsz) + w + xp) (6 + 1 - tsz)
   generalize alignPow2 (alignPow2 xp (6 + 1 - tsz) + w + xp) (6 + 1 - tsz) = S at *
   generalize alignPow2 xp (6 + 1 - tsz) = X at *
@@ -133,7 +134,8 @@ theorem planeNew_covers (w h xd yd xp yp tsz : Nat) (data : Array Nat) (hw : 0 <
   have : S * (yp + h + yp) = (yp + (h - 1)) * S + S + yp * S := by
     have : yp + h + yp = (yp + (h - 1)) + 1 + yp := by omega
     rw [this, Nat.mul_add, Nat.mul_add, Nat.mul_one, Nat.mul_comm S, Nat.mul_comm S yp]
-  omega
+  have harea : w * h ≤ S * (yp + h + yp) := Nat.mul_le_mul (by omega) (by omega)
+  exact ⟨by omega, by omega⟩
 
 
 theorem shr_pos (w s : Nat) (hw : 0 < w) (hdiv : w % 2 ^ s = 0) : 0 < w >>> s := by
